@@ -28,7 +28,7 @@ fn main() {
         let mut outside = 0usize;
         for _ in 0..rounds {
             let mut sc2 = sc.clone();
-            sc2.cfg.pool = 4;
+            sc2.cfg.pool = if sc.name.starts_with("pool1-") { 1 } else { 4 };
             let Ok((db, dir)) = fresh_db(&sc2) else { continue };
             let barrier = Arc::new(Barrier::new(sc.clients.len()));
             let mut hs = vec![];
